@@ -1700,7 +1700,15 @@ class Forest:
                 if not final and (obs == "final" or (obs == "sparse" and self.obs_rng.random() < 0.7)):
                     continue
                 for k in KEYS:
-                    got = lookup_query_metadata(m.stream, k)
+                    try:
+                        got = lookup_query_metadata(m.stream, k)
+                    except RecursionError:
+                        raise
+                    except Exception as ex:
+                        # a look-up has no reason to fail, whatever the values are
+                        raise Violation("C16/lookup/raised", {"stream": m.idx, "key": k,
+                                                              "exc": repr(ex)[:200],
+                                                              "after": self.last_op})
                     exp = m.md.get(k)
                     if not same_qvalue(got, exp):  # Python equality: 1 then 1.0 is 'the same value set again'
                         if exp is not None and got is None:
